@@ -597,6 +597,11 @@ fn is_numchar(c: u8) -> bool {
     c.is_ascii_hexdigit() || c == b'x' || c == b'X' || c == b'.' || c == b'+' || c == b'-'
 }
 
+#[cfg(a2lfile_verif)]
+pub(crate) fn tokenize_core_hook(filetext: &str) -> Result<Vec<A2lToken>, TokenizerError> {
+    tokenize_core("hook".to_string(), 0, filetext)
+}
+
 /*************************************************************************************************/
 
 #[cfg(test)]
